@@ -1,3 +1,4 @@
 import SC.Audit
 import SC.Properties.C10
+import SC.Properties.Src.C10
 #audit C10
